@@ -29,7 +29,8 @@ PS1 == {1}
 \* contents: id -> length.  c is what the caller's digest names (2 bytes); B is a manifest larger than Threshold
 Big == Threshold + 1
 ContLen(id) == CASE id = "c" -> 2 [] id = "w" -> 2 [] id = "s" -> 1 [] id = "l" -> 3 [] id = "e" -> 0
-                 [] id = "B" -> Big [] id = "Bw" -> Big [] id = "Bs" -> Big - 1 [] id = "Bl" -> Big + 1 [] OTHER -> 0
+                 [] id = "B" -> Big [] id = "Bw" -> Big [] id = "Bs" -> Big - 1 [] id = "Bl" -> Big + 1
+                 [] id = "Bh" -> Big \div 2 [] OTHER -> 0
 Huge == MaxAlloc + 1
 
 R0 == [code |-> 200, loc |-> "none", rf |-> "none", ra |-> 0, rb |-> 0, cl |-> 0, dig |-> "none", halg |-> "", hcont |-> "",
@@ -61,6 +62,19 @@ Ends == {"eof", "cut"}
 Locs == {"none", "empty", "bad", "path", "pathq", "pathfq", "url", "rel", "dup"}
 LocsLite == {"none", "bad", "path", "pathq", "url"}
 
+\* Framed responses whose connection closes early: 0, 1, half, all but one, all of the announced bytes delivered
+Truncs(first) ==
+  LET ds == IF first THEN {<<"none", "", "">>, <<"ok", "sha256", "c">>} ELSE {<<"none", "", "">>} IN
+  {WithBody(WithDig([R0 EXCEPT !.cl = 2], d), b, "trunc") : d \in ds, b \in {"e", "s", "c"}}
+  \cup {WithBody(WithDig([R0 EXCEPT !.cl = -1], d), b, "trunc") : d \in ds, b \in {"s", "c"}}
+  \cup {WithBody(WithDig([R0 EXCEPT !.cl = Big], d), b, "trunc") :
+           d \in {<<"none", "", "">>, <<"ok", "sha256", "B">>}, b \in {"e", "s", "Bh", "Bs", "B"}}
+TruncRanges ==
+  {WithBody([R0 EXCEPT !.code = 206, !.cl = x[1], !.crf = "ok", !.crtot = x[2]], x[3], "trunc") :
+      x \in {<<2, 3, "e">>, <<2, 3, "s">>, <<2, 3, "c">>, <<1, 2, "e">>, <<1, 2, "s">>, <<3, 2, "l">>,
+             <<Big, Big + 1, "e">>, <<Big, Big + 1, "s">>, <<Big, Big + 1, "Bh">>, <<Big, Big + 1, "Bs">>, <<Big, Big + 1, "B">>}}
+  \cup {WithBody([R0 EXCEPT !.code = 200, !.cl = x[1]], x[2], "trunc") : x \in {<<2, "e">>, <<2, "s">>, <<2, "c">>, <<-1, "s">>}}
+
 OkAlpha(step, first) ==
   CASE step = "resolve" ->
          {WithDig([R0 EXCEPT !.cl = c, !.ctype = t], d) : c \in {-1, 0, 2}, d \in (IF Lite THEN DigsLite ELSE Digs),
@@ -68,8 +82,9 @@ OkAlpha(step, first) ==
     [] step = "read" ->
          IF first /\ ~Lite
          THEN {WithBody(WithDig([R0 EXCEPT !.cl = c], d), b, e) : c \in CLs, d \in Digs, b \in Bodies, e \in Ends}
+         \cup Truncs(first)
          ELSE IF first
-         THEN {WithBody(WithDig([R0 EXCEPT !.cl = c], d), b, "eof") : c \in {-1, 1, 2, 3}, d \in DigsLite, b \in {"c", "w", "s", "l", "e"}}
+         THEN Truncs(first) \cup {WithBody(WithDig([R0 EXCEPT !.cl = c], d), b, "eof") : c \in {-1, 1, 2, 3}, d \in DigsLite, b \in {"c", "w", "s", "l", "e"}}
               \cup {WithBody(WithDig([R0 EXCEPT !.cl = 2], d), "c", "cut") : d \in DigsLite}
               \cup {WithBody(WithDig([R0 EXCEPT !.cl = Big], d), b, "eof") : d \in {<<"none", "", "">>, <<"ok", "sha256", "B">>}, b \in {"B", "Bw", "Bs", "Bl"}}
               \cup {WithBody([R0 EXCEPT !.cl = Big], "B", "cut")}
@@ -84,6 +99,7 @@ OkAlpha(step, first) ==
                   cr \in {<<"none", 0>>, <<"noslash", 0>>, <<"badnum", 0>>, <<"ok", 0>>, <<"ok", 1>>, <<"ok", 2>>},
                   d \in ds, b \in {"s", "c", "e"}, e \in es}
          \cup {WithBody([R0 EXCEPT !.code = 206, !.cl = 1, !.crf = "ok", !.crtot = 2], "s", "cut")}
+         \cup TruncRanges
     [] step \in {"delete", "pushman", "put1"} ->
          {[R0 EXCEPT !.code = c, !.loc = l] : c \in OkCodes(step), l \in {"none", "path"}}
     [] step = "mount" ->
@@ -231,5 +247,5 @@ RankDecreases == [][Rank' < Rank]_mcvars
 ProgressPerRequest == cq <= (MaxResp - budget) + 1 /\ (budget > 0 => cq <= MaxResp - budget)
 \* no state waits for anything but a response or the caller
 NoStuckState == pc \in {"idle", "req", "done", "end"}
-Props == NoPanicState /\ CorruptNeverCleanEOF /\ NoRequestAfterTransportError /\ ProgressPerRequest /\ NoStuckState
+Props == NoPanicState /\ CorruptNeverCleanEOF /\ ShortNeverCleanEOF /\ NoRequestAfterTransportError /\ ProgressPerRequest /\ NoStuckState
 =============================================================================
